@@ -27,7 +27,7 @@ CONFIG = {
              "x internal nodes with label / taxon / nothing x edge lengths (absent, 0, ints <= 1e9, floats incl. "
              "1e-300, 1.5e+20, negative, mixed) x root-edge length x rooting {True,False,None} x weights x option "
              "pair (a)-(f) x translate_tree_taxa (NEXUS) x entry point (TreeList/Tree as_string/write(path) -> "
-             "TreeList.get/Tree.get incl. tree_offset). Sweep: every label of length <= 2 (quick) / <= 3 (thorough) over a "
+             "TreeList.get/Tree.get incl. tree_offset; Newick/NEXUS: 1 in 4 read into the original namespace). Sweep: every label of length <= 2 (quick) / <= 3 (thorough) over a "
              "45-character alphabet as a leaf of a three-leaf tree (length <= 2 also as an internal node label) x "
              "formats x label option pairs (a)-(d) x translate. "
              "Non-trivial = a label with a character outside [A-Za-z0-9], or a non-default option pair, or a length "
@@ -179,7 +179,8 @@ def cases(draw, max_leaves, fmt=None):
                                       "tree_offset"]))
     return {"fmt": fmt, "pair": pair, "imode": imode, "labels": labels, "ns_order": ns_order, "trees": trees,
             "translate": draw(st.booleans()) if fmt == "nexus" else False, "route": route,
-            "k": draw(st.integers(0, 3)), "list_rooting": list_rooting}
+            "k": draw(st.integers(0, 3)), "list_rooting": list_rooting,
+            "into": fmt != "nexml" and draw(st.integers(0, 3)) == 0}
 
 
 # ---------------------------------------------------------------------------
@@ -437,6 +438,10 @@ def run_case(ctx, case, sub):
         run.check([t.label for t in ns] == [labels[i] for i in case["ns_order"]], "writing_leaves_namespace_unchanged",
                   lambda: "namespace after writing %r" % ([t.label for t in ns],))
         srckw = {"path": path} if text is None else {"data": text}
+        into = bool(case.get("into"))
+        if into:
+            # read into the namespace the trees were written from: every label must resolve to the existing taxon
+            r = dict(r, taxon_namespace=ns)
         if route in ("list_string", "list_path"):
             got = run.lib("read", dendropy.TreeList.get, schema=fmt, **dict(srckw, **r))
             got_trees = list(got)
@@ -466,7 +471,10 @@ def run_case(ctx, case, sub):
                           lambda: "%s: weight written %r read %r" % (tag, ww, gw))
         # namespace
         got_labels = [t.label for t in got_ns]
-        if fmt == "newick":
+        if into:
+            run.check(got_ns is ns, "read_into_given_namespace", "TreeList/Tree.get(taxon_namespace=ns) uses another namespace")
+            want_labels = [labels[i] for i in case["ns_order"]]
+        elif fmt == "newick":
             want_idx = []
             for i in run.written:
                 for t in text_order_taxa(case["trees"][i]["spec"], []):
@@ -506,6 +514,8 @@ def bookkeeping(ctx, case, sub):
     ctx.cls("ntrees:%d" % len(case["trees"]))
     if case["translate"]:
         ctx.cls("nexus:translate")
+    if case.get("into"):
+        ctx.cls("read_into_original_namespace")
     if len(case["labels"]) > len(set(case["labels"]) & used) and case["trees"]:
         ctx.cls("ns:taxa_on_no_tree")
     for tr in case["trees"]:
